@@ -143,6 +143,11 @@ void harness(void)
 #if WMODE == 1
     w.buffer = wb; w.buffer_size = CAP; w.buffer_used = IN.used0; w.error_flags = (binson_err) IN.err0;
     ASSUME((unsigned) IN.err0 <= (unsigned) BINSON_ERROR_MAX_DEPTH_ARRAY);
+    /* writer representation invariant WInv: without an error the counter is within the capacity (a counter beyond the
+       capacity only exists together with the error that the overflowing call latched). Assumed here, re-established by
+       every call (checked below), established by init / reset (H-WINIT): the step is inductive and states no call
+       sequence can reach are not part of the claim. */
+    ASSUME(IN.err0 != BINSON_ERROR_NONE || IN.used0 <= (size_t) CAP);
 #if PROPSET == 9
     ASSUME(IN.err0 != BINSON_ERROR_NONE);
 #endif
@@ -190,6 +195,7 @@ void harness(void)
         PCHECK(5, wb[i] == exp_buf[i], "C05 bytes produced are the canonical encoding");
     }
     PCHECK(4, (w.error_flags != BINSON_ERROR_NONE) == exp_failed, "C04 error set iff some piece did not fit");
+    CHECK(w.error_flags != BINSON_ERROR_NONE || w.buffer_used <= (size_t) CAP, "WInv re-established: no error implies counter within the capacity");
 #if WMODE == 2
     PCHECK(4, (w.error_flags == BINSON_ERROR_RANGE) == (exp_used > (size_t) CAP), "C04 RANGE iff the exact size exceeds the capacity");
     PCHECK(4, w.error_flags == BINSON_ERROR_NONE || w.error_flags == BINSON_ERROR_RANGE, "C04 no other error class on in-range arguments");
